@@ -15,7 +15,7 @@ pub fn property() -> Property {
     Property {
         id: "C02",
         level: "fault_enumeration",
-        rule: "For each base response (fixed list, all framings/chunk styles, <= 1.5 KiB so enumeration is complete, plus random bases with chunks > 64 KiB) inject one fault: cut (EOF) at EVERY byte offset; EVERY offset replaced by an I/O error (ConnectionReset sticky; TimedOut/WouldBlock/Interrupted one-shot, stream continues) followed by 0..4 further caller reads; EVERY single-byte corruption of every chunk-framing byte by each of 12 replacement bytes. Served as one segment, bytewise or random segments. Oracle: strict RFC 9112 reference decoder of the bytes actually served gives (certain payload prefix, complete|incomplete|malformed|gray); after EVERY read return the bytes handed out must be a prefix of that payload; the first end-of-body signal on an incomplete/malformed frame must be Err; convenience readers must return Err. The streaming text reader (1..3-byte buffers) and the JSON helpers json()/json_utf8() are driven as body readers too: a complete JSON text inside an incomplete frame (every cut offset of 18 JSON responses, incl. cuts inside announced trailing white space and inside the terminating chunk) must give Err, a complete frame must give the value that was sent. Non-trivial = fault lies inside the frame; distinct = hash(wire served, fault, segmentation, plan).",
+        rule: "For each base response (fixed list, all framings/chunk styles, <= 1.5 KiB so enumeration is complete, plus random bases with chunks > 64 KiB) inject one fault: cut (EOF) at EVERY byte offset; EVERY offset replaced by an I/O error (ConnectionReset sticky; TimedOut/WouldBlock/Interrupted one-shot, stream continues) followed by 0..4 further caller reads; EVERY single-byte corruption of every chunk-framing byte by each of 12 replacement bytes. Served as one segment, bytewise or random segments. Oracle: strict RFC 9112 reference decoder of the bytes actually served gives (certain payload prefix, complete|incomplete|malformed|gray); after EVERY read return the bytes handed out must be a prefix of that payload; the first end-of-body signal on an incomplete/malformed frame must be Err; convenience readers must return Err. The streaming text reader (caller buffers 1,2,3,4,7,4096: below, at and above its 4-byte staging threshold) and the JSON helpers json()/json_utf8() are driven as body readers too: a complete JSON text inside an incomplete frame (every cut offset of 18 JSON responses, incl. cuts inside announced trailing white space and inside the terminating chunk) must give Err, a complete frame must give the value that was sent. Non-trivial = fault lies inside the frame; distinct = hash(wire served, fault, segmentation, plan).",
         assumptions: &[
             "gray deviations (bare LF, blank/sign-padded sizes, trailers, stray CR, size line > 100 bytes) are executed but only judged for the prefix rule up to the deviation",
             "after an Err was returned, later reads may return Err or Ok(0); only fabricated bytes are judged there",
@@ -602,8 +602,11 @@ fn text_base(i: usize) -> Base {
 
 fn textreader_per_base(i: usize) -> u64 {
     let b = text_base(i);
-    ((b.frame_end - b.head_len) as u64 + 1) * 4 * 3
+    ((b.frame_end - b.head_len) as u64 + 1) * 4 * TEXT_BUFS.len() as u64
 }
+
+/// caller buffers for the text reader: below, at and above the 4-byte staging threshold
+const TEXT_BUFS: [usize; 6] = [1, 2, 3, 4, 7, 4096];
 
 fn textreader_count() -> u64 {
     (0..9).map(textreader_per_base).sum()
@@ -617,9 +620,10 @@ fn run_textreader(ctx: &mut Ctx, rng: &mut Rng, index: u64) {
     }
     let (bi, idx) = locate(index, textreader_per_base);
     let base = text_base(bi);
-    let buf = [1usize, 2, 3][(idx % 3) as usize];
-    let (kind, sticky) = KINDS[((idx / 3) % 4) as usize];
-    let at = base.head_len + (idx / 12) as usize;
+    let nb = TEXT_BUFS.len() as u64;
+    let buf = TEXT_BUFS[(idx % nb) as usize];
+    let (kind, sticky) = KINDS[((idx / nb) % 4) as usize];
+    let at = base.head_len + (idx / (4 * nb)) as usize;
     let c = Case { base, fault: Fault::Err { at, kind, sticky }, seg_class: (idx % 2) as u8, plan: ReadPlan::TextReader { sizes: vec![buf] }, extra_reads: 2 + (idx % 3) as usize };
     run_case(ctx, rng, &c);
 }
